@@ -78,12 +78,22 @@ TokEvent(cfg, acc, e, shift) ==
                  ELSE [st |-> [st EXCEPT !.sig = <<e.n, e.d>>, !.capTotal = BarCap(cfg, e.n, e.d), !.capRem = BarCap(cfg, e.n, e.d)],
                        out |-> Append(r.out, Tok("tsg", (e.n * 8) \div e.d)), ok |-> TRUE]
        ELSE [st |-> st, out |-> r.out, ok |-> TRUE]                                  \* cap: only the rest before it
-EndCall(cfg, acc) == IF acc.ok /\ acc.st.barPos > 0 /\ acc.st.capRem > 0
-                     THEN LET r == Rest(cfg, acc.st, acc.out, acc.st.capRem) IN [st |-> r.st, out |-> r.out, ok |-> r.ok]
-                     ELSE acc
+(* end of a call: the bar the clock is in is closed; then whole bars are filled until the clock has passed the last
+   instant of the call's input (a note may still be sounding after the last event).  `CloseBarOnly` is the earlier
+   as-built rule, which stopped after closing the bar. *)
+CloseBarOnly(cfg, acc) == IF acc.ok /\ acc.st.barPos > 0 /\ acc.st.capRem > 0
+                          THEN LET r == Rest(cfg, acc.st, acc.out, acc.st.capRem) IN [st |-> r.st, out |-> r.out, ok |-> r.ok]
+                          ELSE acc
+RECURSIVE FillBars(_, _, _, _)
+FillBars(cfg, acc, upTo, fuel) ==
+    IF ~acc.ok \/ acc.st.clock >= upTo \/ fuel = 0 THEN acc
+    ELSE LET r == Rest(cfg, acc.st, acc.out, acc.st.capRem) IN FillBars(cfg, [st |-> r.st, out |-> r.out, ok |-> r.ok], upTo, fuel - 1)
+LastInstantOf(events) == MaxS({0} \cup {IF events[j].kind = "note" THEN events[j].t + events[j].val ELSE events[j].t : j \in DOMAIN events})
+EndCall(cfg, acc, lastInstant) == FillBars(cfg, CloseBarOnly(cfg, acc), lastInstant, 64)
 (* one whole call: carried state in, (carried state, tokens) out *)
 TokeniseCall(cfg, carry, events) ==
-    EndCall(cfg, FoldLeft(LAMBDA a, e : TokEvent(cfg, a, e, carry.clock), [st |-> carry, out |-> <<>>, ok |-> TRUE], events))
+    EndCall(cfg, FoldLeft(LAMBDA a, e : TokEvent(cfg, a, e, carry.clock), [st |-> carry, out |-> <<>>, ok |-> TRUE], events),
+            LastInstantOf(events) + carry.clock)
 
 (* ---------------------------------------------------------------- detokenise *)
 FreshD(cfg) == [clock |-> 0, barPos |-> 0, capTotal |-> BarCap(cfg, 8, 8), capRem |-> BarCap(cfg, 8, 8), sig |-> DefaultSig,
